@@ -35,7 +35,7 @@ def Node.plain : Node → Bool
   | .cmd _ _ ps | .cmdx _ _ ps => ps.plain
   | .field _ _ _ _ l => l.plain && (match l with | .listener b => decide (b ≤ 6) | _ => true)
   | .vec a b c => a.plain && b.plain && c.plain
-  | .f1 op x => (decide (op ≠ OP_UN_MINUS) || x.isLit || x.endsNL) && x.plain
+  | .f1 op x => (decide (op ≠ OP_UN_MINUS) || x.evOk) && x.plain
   | .f2 _ a b => a.plain && b.plain
   | .not_ x => x.plain
   | .idx a i => a.plain && i.plain
@@ -167,11 +167,32 @@ theorem J2_addLabel {L : Nat} {c p : St} (h : Rel L c p) (i : Nat) (pr cl1 cl2 :
 
 /-! ## the emitter -/
 
-/-- the statement at one node: for the three functions, under membership in the class -/
+/-- after an operand that ends in a non-literal opcode, both passes see the same (empty or zero) previous value -/
+theorem evalPrev_eq_of_nl {L : Nat} {c p : St} (h : Rel L c p) (hc : NL c) (hp : NL p) : c.evalPrev = p.evalPrev := by
+  rw [evalPrev_nl h.w.vc hc, evalPrev_nl h.w.vp hp]
+  rcases h.topCases with heq | ⟨h1, h2⟩
+  · rw [heq]
+  · rw [if_neg (untested_elim h1).1, if_neg (untested_elim h2).1]
+
+/-- the statement at one node: for the three functions, under membership in the class; and, for the kinds that can be
+the operand of a unary minus (`Node.evOk`): after the node both passes read the same previous value -/
 structure MSP (n : Node) : Prop where
   e : n.plain = true → ∀ {L c p}, Rel L c p → J L (emit n c) (emit n p) (Rel L)
   r : n.plainA = true → ∀ {L c p}, Rel L c p → J L (emitRef n c) (emitRef n p) (Rel L)
   a : n.plainA = true → ∀ {L c p}, Rel L c p → J L (emitAssign n c) (emitAssign n p) (Rel L)
+  ev : n.plain = true → n.evOk = true → ∀ {L c p c' p'}, Rel L c p → emit n c = .ok c' → pl c' ≤ L → emit n p = .ok p' →
+    c'.evalPrev = p'.evalPrev
+
+/-- the fourth component for the kinds that end in a non-literal opcode -/
+theorem MSP.of3 (n : Node)
+    (e : n.plain = true → ∀ {L c p}, Rel L c p → J L (emit n c) (emit n p) (Rel L))
+    (r : n.plainA = true → ∀ {L c p}, Rel L c p → J L (emitRef n c) (emitRef n p) (Rel L))
+    (a : n.plainA = true → ∀ {L c p}, Rel L c p → J L (emitAssign n c) (emitAssign n p) (Rel L))
+    (hk : n.evOk = true → n.endsNL = true) : MSP n :=
+  ⟨e, r, a, fun hpl hev {L c p c' p'} h hc hL hp => by
+    have hr : Rel L c' p' := by have := e hpl h c' hc hL; rw [hp] at this; exact this
+    exact evalPrev_eq_of_nl hr (wp_of_eq_ok (endsNL_spec n c (hk hev) h.w.vc) hc).2
+      (wp_of_eq_ok (endsNL_spec n p (hk hev) h.w.vp) hp).2⟩
 
 structure MSPL (xs : Nodes) : Prop where
   l : xs.plain = true → ∀ {L c p}, Rel L c p → J L (emitList xs c) (emitList xs p) (Rel L)
@@ -212,7 +233,7 @@ macro "ms_steps" : tactic =>
 set_option hygiene false in
 macro "ms_walk" : tactic =>
   `(tactic| first
-    | (refine ⟨fun hpl => ?_, fun hpl => ?_, fun hpl => ?_⟩ <;> intro L c p h <;>
+    | (refine MSP.of3 _ (fun hpl => ?_) (fun hpl => ?_) (fun hpl => ?_) (by intro hh; simpa [Node.evOk, Node.endsNL] using hh) <;> intro L c p h <;>
         first
         | (simp [Node.plain, Node.plainA] at hpl; done)
         | (simp only [emit, emitRef, emitAssign] <;> (try simp only [ok_bind, error_bind, throw_eq, pure_eq]) <;> ms_steps))
